@@ -290,6 +290,15 @@ Definition fold_accepts (N R L H W : Z) (q : geo2) : bool :=
   let g := fold_geom N R L H W q in
   (0 <? lH g) && (0 <? lW g) && (N * R * L =? lH g * lW g * N * gC g * kH g * kW g).
 
+(* the functional wrappers: rank checks of F.max_pool*/avg_pool*/unfold/fold, shape requirements of the conv kernels
+   (C_out, C_in, kH, kW = weight.shape unpacks a rank-4 weight only; extract_windows wants rank 3 or 4 and the kernel
+   argument broadcast to that many axes; tensordot needs weight.shape[1] = x.shape[1]; a bias is added by broadcasting
+   (C_out,1,1,1) so it needs C_out entries (or 1)) *)
+Definition accepts_pool2d (xrank : Z) g : bool := (xrank =? 4) && accepts2 g.
+Definition accepts_pool1d (xrank : Z) g : bool := (xrank =? 3) && accepts1 g.
+Definition accepts_conv2d (xrank wrank wCin : Z) g : bool := (xrank =? 4) && (wrank =? 4) && (wCin =? gC g) && accepts2 g.
+Definition accepts_conv1d (xrank wrank wCin : Z) g : bool := (xrank =? 3) && (wrank =? 3) && (wCin =? C1 g) && accepts1 g.
+
 (* ================================================================== tensors from flat (row-major) lists, for the checks *)
 Definition zget (l : list Z) (i : Z) : Z := if i <? 0 then 0 else nth (Z.to_nat i) l 0.
 Definition of4 (d2 d3 d4 : Z) (l : list Z) : pos -> Z := fun q => let '(i, j, k, m) := q in zget l (ravel4 d2 d3 d4 i j k m).
